@@ -165,6 +165,37 @@ V("OW3-helper-inplace", "C13", "OW3",
 V("OW3-benign-np-array-copy", "C13", None,
   ("scaling.py", "        voltage_out = data.astype(np.double)\n", "        voltage_out = np.array(data, dtype=np.double)\n"))
 
+V("SD1-binary-operands-swapped", "C13", "SD1",
+  ("scaling.py", "            return scaling.scale(left_input_data, right_input_data)\n", "            return scaling.scale(right_input_data, left_input_data)\n"))
+V("SD1-first-scale-is-output", "C13", "SD1",
+  ("scaling.py", "        final_scale = len(self.scalings) - 1\n        return self._compute_scaled_data(final_scale, raw_channel_data)\n",
+   "        final_scale = 0\n        return self._compute_scaled_data(final_scale, raw_channel_data)\n"))
+V("SD1-daqmx-fed-raw-data", "C13", "SD1",
+  ("scaling.py", "            return scaling.scale_daqmx(raw_channel_data.scaler_data)\n", "            return scaling.scale_daqmx(raw_channel_data.data)\n"))
+V("SD1-subtract-built-as-add", "C13", "SD1",
+  ("scaling.py", "            scalings[scale_index] = SubtractScaling.from_properties(\n", "            scalings[scale_index] = AddScaling.from_properties(\n"))
+V("SD1-benign-helper-and-names", "C13", None,
+  ("scaling.py", "        final_scale = len(self.scalings) - 1\n        return self._compute_scaled_data(final_scale, raw_channel_data)\n",
+   "        last = len(self.scalings)\n        last -= 1\n        return self._compute_scaled_data(last, raw_channel_data)\n"))
+
+V("AO1-file-scope-first", "C13", "AO1",
+  ("scaling.py", "        for p in [channel_properties, group_properties, file_properties])\n", "        for p in [file_properties, group_properties, channel_properties])\n"))
+V("AO1-group-from-map-being-filled", "C13", "AO1",
+  ("tdms.py", "                    channel_group_properties = object_properties[path.group_path()]\n", "                    channel_group_properties = group_properties[path.group]\n"))
+V("AO1-last-scope-wins", "C13", "AO1",
+  ("scaling.py", "        return next(s for s in scalings if s is not None)\n", "        return [s for s in scalings if s is not None][-1]\n"))
+V("NS1-count-instead-of-max", "C13", "NS1",
+  ("scaling.py", "        return max(int(m.group(1)) for m in matches if m is not None) + 1\n", "        return len([m for m in matches if m is not None]) or None\n"))
+V("NS1-max-without-plus-one", "C13", "NS1",
+  ("scaling.py", "        return max(int(m.group(1)) for m in matches if m is not None) + 1\n", "        return max(int(m.group(1)) for m in matches if m is not None)\n"))
+V("ST1-status-inverted", "C13", "ST1",
+  ("scaling.py", "    if scaling_status == \"scaled\":\n", "    if scaling_status != \"scaled\":\n"))
+V("ST1-status-from-other-property", "C13", "ST1",
+  ("scaling.py", "    scaling_status = properties.get(\"NI_Scaling_Status\", \"unscaled\")\n", "    scaling_status = properties.get(\"NI_Scale_Status\", \"unscaled\")\n"))
+V("ST1-benign-helper", "C13", None,
+  ("scaling.py", "    scaling_status = properties.get(\"NI_Scaling_Status\", \"unscaled\")\n    if scaling_status == \"scaled\":\n",
+   "    if \"scaled\" == properties.get(\"NI_Scaling_Status\", \"unscaled\"):\n"))
+
 # ---------------------------------------------------------------- C14 (DT1-DT4, LN1)
 V("DT1-revert-linear-ensure-double", "C14", "DT1",
   ("scaling.py", "        data = data.astype(np.dtype('float64'), copy=False)\n        return data * self.slope + self.intercept\n", "        return data * self.slope + self.intercept\n"))
